@@ -1,5 +1,6 @@
 import CstModel.Driver.Core
 import CstModel.Generated.DriverFacts
+import CstModel.Model.Owner
 namespace Cst.Drv
 
 mutual
@@ -172,42 +173,49 @@ def compactEvent (w : String) : Option (List String) :=
     | _ => none
   | _ => none
 
-/-- `wbuild how cN events`: a whole tree built in one go through one of the borrowing / consuming
-    constructors (`with_cache`, `with_interner`, `from_interner`): same builder, the cache is kept,
-    replaced by a fresh one over the same interner before (and, for `with_interner`, also after) the build -/
+/-- a compact event as an event of the model -/
+def compactEv (w : String) : Option Ev :=
+  match w.toList with
+  | 's' :: r => (String.ofList r).toNat?.map Ev.start
+  | 'k' :: r => (String.ofList r).toNat?.map Ev.stok
+  | ['f'] => some .finish
+  | 't' :: r =>
+    match (String.ofList r).splitOn ":" with
+    | [k, h] => match k.toNat?, decodeText h with
+      | some k, some t => some (.tok k t)
+      | _, _ => none
+    | _ => none
+  | _ => none
+
+def routeOf : String → Option Route
+  | "with_cache" => some .withCache
+  | "from_cache" => some .fromCache
+  | "with_interner" => some .withInterner
+  | "from_interner" => some .fromInterner
+  | _ => none
+
+/-- `wbuild how cN events`: a whole tree built in one go through one of the borrowing / consuming constructors:
+    `Model/Owner.buildVia`; the slot keeps what the caller holds afterwards (`Outcome.slotAfter`) -/
 def wbuildStep (s : DState) : List String → Option (DState × String)
   | ["wbuild", how, c, evs] =>
-    match parseRef 'c' c with
-    | none => some (s, "bad-op")
-    | some slot =>
-      match s.caches[slot]? with
-      | some (some cache) =>
-        let fresh := how == "with_interner" || how == "from_interner"
-        let s0 := if fresh then { s with caches := s.caches.set! slot (some (forgetCache cache)) } else s
-        match builderStep s0 ["builder", c] with
-        | some (s1, "ok") =>
-          let rec go (st : DState) : List String → Option DState
-            | [] => some st
-            | w :: ws =>
-              match compactEvent w with
-              | none => none
-              | some line =>
-                match builderStep st line with
-                | some (st', _) => go st' ws
-                | none => none
-          match go s1 (evs.splitOn ",") with
-          | none => some (s, "bad-op")
-          | some s2 =>
-            match builderStep s2 ["finish"] with
-            | some (s3, out) =>
-              if how == "with_interner" then
-                match s3.caches[slot]? with
-                | some (some c3) => some ({ s3 with caches := s3.caches.set! slot (some (forgetCache c3)) }, out)
-                | _ => some (s3, out)
-              else some (s3, out)
-            | none => some (s, "bad-op")
-        | _ => some (s, "bad-op")
-      | _ => some (s, "bad-op")
+    match parseRef 'c' c, routeOf how, (evs.splitOn ",").mapM compactEv with
+    | some slot, some r, some evl =>
+      match s.caches[slot]?, s.builder with
+      | some (some cache), none =>
+        match buildVia s.cfg r cache evl with
+        | .error _ =>
+          -- the builder (and a cache it owned) is gone with the panic; a lent cache keeps what it learnt: the protocol
+          -- only sends valid trees here, so this is a disagreement the diff will show
+          some (s, "panic")
+        | .ok o =>
+          let after := o.slotAfter r cache
+          let n := s.greens.size
+          let s' := { s with caches := s.caches.set! slot (some after), greens := s.greens.push (o.tree, slot) }
+          match resolveG s.cfg after.interner o.tree with
+          | some t => some (s', s!"g{n} {dumpT t}")
+          | none => some (s', s!"g{n} unresolvable")
+      | _, _ => some (s, "bad-op")
+    | _, _, _ => some (s, "bad-op")
   | _ => none
 
 end Cst.Drv
